@@ -1027,6 +1027,71 @@ def _omen_model_job(prop, seed, levels=(1, 2, 3)):
     return out
 
 
+def _big_level_job(seed):
+    """an OMEN model whose CP.level passes 4 MiB (every 4-gram over 28 letters: 614 656 lines, 4.3 M characters; block
+    sizes and size hints of a reader sit there): what the guesser's loader and the scorer hold afterwards, against an
+    independent reading of the same files"""
+    import itertools
+    from . import scratch as _scratch, worlds
+    from .refmodel import RefOmen
+    from .tape import Tape
+    from .checks import omen as omen_check
+    t = Tape(seed=seed)
+    alphabet = list("abcdefghijklmnopqrstuvwxyz") + [t.choice(["\u00e9", "0", "_"]), t.choice(["1", "\u00f1", "-"])]
+    mult = t.choice([2654435761, 40503, 7919])
+    lv = lambda i: (i * mult >> 3) % 11          # noqa
+    grams3 = ["".join(x) for x in itertools.product(alphabet, repeat=3)]
+    grams4 = ["".join(x) for x in itertools.product(alphabet, repeat=4)]
+    if t.chance(1, 2):
+        grams4 = grams4[::-1]
+    omen = {"ngram": 4, "alphabet": alphabet, "encoding": "utf-8",
+            "ip": [[lv(i + 5), g] for i, g in enumerate(grams3)], "ep": [[lv(i + 11), g] for i, g in enumerate(grams3)],
+            "cp": [[lv(i), g] for i, g in enumerate(grams4)], "ln": [10, 10, 10, 0, 1, 0, 2, 1, 3, 10]}
+    wr = _scratch.fresh_disk()
+    odir = os.path.join(wr, "Rules", "R", "Omen")
+    os.makedirs(odir, exist_ok=True)
+    worlds.write_omen(omen, odir)
+    out = {"problem": None, "cp_lines": len(grams4), "cp_chars": os.path.getsize(os.path.join(odir, "CP.level"))}
+    ro = RefOmen(odir)
+    g = omen_check.load_omen(odir)
+    if g is None:
+        out["problem"] = ("guesser_cannot_load_omen", {"cp_lines": len(grams4)})
+        return out
+    n_cp = sum(len(chars) for by_level in g["cp"].values() for chars in by_level.values())
+    n_ip = sum(len(v) for v in g["ip"].values())
+    n_ep = len(grams3)
+    ref_cp = sum(len(v) for v in ro.cp.values())
+    if n_cp != ref_cp or n_ip != len(ro.ip) or len(g["ep"]) != n_ep:
+        out["problem"] = ("guesser_omen_loader_holds_other_ngrams_than_the_files", {
+            "CP.level": [n_cp, ref_cp], "IP.level": [n_ip, len(ro.ip)], "EP.level": [len(g["ep"]), n_ep],
+            "CP_characters": out["cp_chars"]})
+        return out
+    # spot checks, biased to the end of the file
+    for _ in range(4000):
+        i = len(grams4) - 1 - min(t.draw(len(grams4)), t.draw(len(grams4)))
+        gram, level = grams4[i], lv(i)
+        if gram[-1] not in g["cp"].get(gram[:-1], {}).get(level, []):
+            out["problem"] = ("guesser_omen_loader_holds_other_ngrams_than_the_files", {"ngram": gram, "level_in_file": level,
+                                                                                 "line": i + 1})
+            return out
+    # the scorer reads the same files with its own reader: a string made of late n-grams gets the reference level
+    try:
+        from lib_scorer.omen_scorer import OmenScorer
+        with guesser.streams():
+            sc = OmenScorer(os.path.join(wr, "Rules", "R"), "utf-8", 40)
+        for _ in range(300):
+            n = t.between(4, 9)
+            s = "".join(alphabet[len(alphabet) - 1 - min(t.draw(28), t.draw(28))] for _ in range(n))
+            want = ro.level(s)
+            got = sc.parse(s)
+            if want >= 0 and got != want and not (want > 40 and got == -1):
+                out["problem"] = ("scorer_level_differs_from_reference", {"string": s, "scorer": got, "reference": want})
+                return out
+    except ImportError:
+        pass
+    return out
+
+
 def omen_model_phase(prop, tier, base_seed):
     out = {"shipped_omen_model_runs": 0, "shipped_omen_levels_enumerated": 0, "shipped_omen_strings": 0,
            "shipped_omen_strings_scored": 0, "violations": []}
@@ -1042,6 +1107,14 @@ def omen_model_phase(prop, tier, base_seed):
             out["violations"].append({"seed": base_seed, "tape": [], "violation": {
                 "property": prop, "kind": "shipped_ruleset:" + r["problem"][0], "key": None,
                 "detail": dict(r["problem"][1], ruleset="Default")}, "case": None})
+    out["big_level_file_models"] = 0
+    for r in _fan_out(_big_level_job, [(base_seed * 6007 + 3 + i,) for i in range(1 if tier == "quick" else 4)]):
+        out["big_level_file_models"] += 1
+        out["big_level_file_cp_characters"] = r["cp_chars"]
+        if r["problem"]:
+            out["violations"].append({"seed": base_seed, "tape": [], "violation": {
+                "property": prop, "kind": "big_level_file:" + r["problem"][0], "key": None,
+                "detail": r["problem"][1]}, "case": None})
     return out
 
 
